@@ -60,3 +60,29 @@ Definition guard2 (p : program) (vd : verdict) : bool :=
     | Some OpDefault => true
     | _ => negb (after_eval_ref (writes_of (line_var p (vd_flagged vd)) 0 (firstn (vd_flagged vd) p)))
     end.
+
+(* The guard of C17_verdict_sound_partial3: for an EARLIER flagged line nothing is
+   asked of the lines between the two lines any more; only the later line itself,
+   if it is a ':=' / '!=' with a '$', must not reach the variable. *)
+Definition guard3 (p : program) (vd : verdict) : bool :=
+  if Nat.ltb (vd_flagged vd) (vd_because vd) then
+    match nth_error p (vd_because vd) with
+    | Some l => indep_line (firstn (vd_because vd) p) (line_var p (vd_flagged vd)) l
+    | None => true
+    end
+  else
+    match line_op p (vd_flagged vd) with
+    | Some OpDefault => true
+    | _ => negb (after_eval_ref (writes_of (line_var p (vd_flagged vd)) 0 (firstn (vd_flagged vd) p)))
+    end.
+
+(* The guard of C17_verdict_sound_partial4: no condition at all when an EARLIER
+   line is flagged; the condition for a LATER flagged line is the one of [guard]
+   (the unrepaired finding "redundant after ':=' with a '$'"). *)
+Definition guard4 (p : program) (vd : verdict) : bool :=
+  if Nat.ltb (vd_flagged vd) (vd_because vd) then true
+  else
+    match line_op p (vd_flagged vd) with
+    | Some OpDefault => true
+    | _ => negb (after_eval_ref (writes_of (line_var p (vd_flagged vd)) 0 (firstn (vd_flagged vd) p)))
+    end.
